@@ -145,6 +145,7 @@ def run(an: Analysis, rep):
     from .common import truthiness_rule
     rep.run(c04.r045, an, SharedRules(rep, "R01.D", "the docstring is co_consts[0] exactly when that is a str - also the empty one (shared with C04's R04.5): otherwise the encoder lays the constants out differently"))
     rep.run(c09.unreferenced_rules, an, SharedRules(rep, "R01.U", "entries no instruction references are listed, each with the override the rank function gives it (shared with C09's R09.3/R09.5): otherwise re-encoding moves them"))
+    rep.run(c03.r035, an, SharedRules(rep, "R01.W", "operand width thresholds (shared with C03's R03.5): an instruction whose recorded width equals the minimal one carries no override, so the encoder's size function must be CPython's"))
     rep.run(c03.r038, an, SharedRules(rep, "R01.F", "the encoder keys a line (and its extra table entries) at the first code unit of the instruction (shared with C03's R03.8)"))
     rep.run(truthiness_rule, an, rep, "R01.T", ["from_code", "to_code"], [("Instruction", "line_number"), ("AdditionalLine", "line")])
     rep.run(c10.format_rules, an, SharedRules(rep, "R01.L", "line-table format constants (shared with C10's R10.*): byte equality of co_lnotab / co_linetable needs them"))
